@@ -4,7 +4,7 @@
 // tier: quick
 // name: TrimCollinear64.closed-clauses TrimCollinear64.open-clauses
 // what: closed paths: result is a cyclic sub-sequence of the input, exact shoelace sum unchanged, no three cyclically consecutive result vertices collinear, 0 or >= 3 vertices, trimming twice changes nothing; open paths: sub-sequence with both end points kept (or the documented short-path results)
-// bound: every path of 0..5 points (quick) / 0..6 points (thorough) over the 3x3 grid {0,2,4}^2 (coordinate differences never equal 1: inside the F2 carve-out), exhaustive, integer oracles
+// bound: every path of 0..6 points (quick) / 0..7 points (thorough) over the 3x3 grid {0,2,4}^2 (coordinate differences never equal 1: inside the F2 carve-out), exhaustive, integer oracles
 
 package go_clipper2
 
@@ -65,9 +65,9 @@ func vbEq(a, b Path64) bool {
 }
 
 func TestVerifBoundedTrimCollinear(t *testing.T) {
-	maxN := 5
+	maxN := 6
 	if os.Getenv("VERIF_TIER") == "thorough" {
-		maxN = 6
+		maxN = 7
 	}
 	var grid []Point64
 	for x := int64(0); x < 3; x++ {
